@@ -212,3 +212,6 @@ claim('C07',
       'Trusted: Lean kernel, harness. The probabilistic main clause is a search, not a theorem; thresholds are tied to the model at their boundaries by the C05/C06 correspondences.',
       'Lean 4 proof of the deterministic corollaries and exact rates + search for accusations on the implementation',
       'DESIGN.md section 5 C07, section 7')
+
+NOT_CLAIMED['C17'] = ('partly built: Props/C17.lean (single checks are pointwise; BatchGCD permutation / healthy-addition / set-function) and harness/corr/c17.py '
+                      '(RSA single checks alone vs batch vs position vs earlier calls; CheckGCD permutations) are green; EC / ECDSA halves (table history, issuer grouping) pending')
